@@ -5,7 +5,7 @@ cancellation at every position."""
 import lib
 import gen
 import sx
-from gen import S, case
+from gen import S, case, lit
 import props.c06 as c06
 
 IGN = c06.IGN_T.encode().hex()
@@ -82,6 +82,25 @@ def run(ctx):
         c, meta = gen_case(r, i, kind)
         cases.append(c)
         metas[lib.case_id(c)] = meta
+    # presence tests on request parts that become known one binding at a time - the zero uid among the values (a legal part in the Go API) - while
+    # another variable keeps the policy residual
+    Z = gen.vent('', '')
+    Pv, Rv, Cn = ['var', 'principal'], ['var', 'resource'], ['access', ['var', 'context'], S('n')]
+    one = lit(gen.vlong(1))
+    tcond = [['has', Pv, S('n')], ['has', Pv, S('name')], ['has', Rv, S('owner')], ['has', lit(Z), S('n')], ['hasTag', Pv, lit(gen.vstr('k'))]]
+    ti = 0
+    for h in tcond:
+        for body in (['and', h, ['eq', Cn, one]], ['or', h, ['eq', Cn, one]], ['and', ['not', h], ['eq', Cn, one]], ['if', h, ['eq', Cn, one], ['ne', Cn, one]]):
+            for kind in ('when', 'unless'):
+                for eff in ('permit', 'forbid'):
+                    ti += 1
+                    pols = [['policy', S('p0'), eff, ['all'], ['all'], ['all'], ['conds', [kind, body]]],
+                            ['policy', S('p1'), 'permit', ['all'], ['all'], ['all'], ['conds']]]
+                    tmpl = ['req', c06.var('p'), c06.ACT, c06.var('r'), gen.vrec([('n', c06.var('n'))])]
+                    vars_ = [[S('p'), Z, c06.UA, c06.UB][:r.choice([3, 4])], [S('r'), c06.DOC, Z], [S('n'), gen.vlong(1), gen.vlong(2), gen.vlong(3)]]
+                    c = case('bz%d' % ti, 'batch', c06.STORE, tmpl, ['vars'] + vars_, ['policies'] + pols, ['mode', 'none'])
+                    cases.append(c)
+                    metas[lib.case_id(c)] = dict(ignore=False, total=1, mode=['mode', 'none'])
     ctx.rule = ('random policy sets (1-4 policies over the C06 atom language) x request templates with variables in principal / resource / '
                 'whole context / nested in context records, sets and sub-records, the same variable several times, ignored parts x value '
                 'lists of length 0-3 with duplicates, unused and unbound variables; 60%% plain runs, 20%% callback failure (a plain error, or one that wraps the end of another context) at a random '
